@@ -157,6 +157,10 @@ def gen_cases(ctx):
         out.append({"k": "grid", "grid": gk[k % 3], "seed": rng.getrandbits(48)})
     for k in range(30 if q else 400):
         out.append({"k": "gridbig", "grid": ["polar", "rotated"][k % 2], "seed": rng.getrandbits(48)})
+    # grids of the size of operational coastal models in one direction (1300-1900 cells at 0.8 km, a narrow strip to
+    # keep the file small): the corners of the valid region lie many hundreds of cells from the solver's first guess
+    for k in range(4 if q else 24):
+        out.append({"k": "gridbig", "grid": ["polar", "rotated"][k % 2], "seed": rng.getrandbits(48), "long": True, "whole": k % 4 < 2})
     # end to end: single file / one / two records per file (>= 3 files), both layouts, with and without lon/lat state variables
     combos = [(2, "sparse", False), (1, "sparse", True), (2, "dense", False), (0, "sparse", True), (1, "dense", True),
               (2, "sparse", True), (0, "dense", False), (1, "sparse", False), (2, "dense", True), (0, "sparse", False),
@@ -591,8 +595,18 @@ def eval_gridbig(desc, ctx):
     rng = random.Random(desc["seed"])
     gt = desc["grid"]
     jmax0, imax0 = rng.randint(12, 60), rng.randint(12, 70)
-    lon, lat, dx = GRIDS[gt](jmax0, imax0, rng)
-    if rng.random() < 0.3:
+    if desc.get("long"):
+        jmax0, imax0 = rng.randint(24, 40), rng.randint(1300, 1900)
+        lon, lat, dx = GRIDS[gt](jmax0, imax0, rng, 0.8)
+    else:
+        lon, lat, dx = GRIDS[gt](jmax0, imax0, rng)
+    if desc.get("long"):
+        if desc.get("whole"):
+            sub, i0, i1, j0, j1 = None, 1, imax0 - 1, 1, jmax0 - 1
+        else:
+            i0, i1, j0, j1 = rng.randint(1, 80), imax0 - rng.randint(1, 80), rng.randint(1, 6), jmax0 - rng.randint(1, 6)
+            sub = (i0, i1, j0, j1)
+    elif rng.random() < 0.3:
         sub, i0, i1, j0, j1 = None, 1, imax0 - 1, 1, jmax0 - 1
     else:
         i0, i1, j0, j1 = legal_subgrid(rng, imax0, jmax0, minw=4)
@@ -621,8 +635,8 @@ def eval_gridbig(desc, ctx):
                 problems.append(f"{gt} grid {jmax0}x{imax0} ({dx:.2f} km) subgrid {(i0, i1, j0, j1)}: ll2xy(xy2ll({X[k]},{Y[k]})) = ({X2[k]},{Y2[k]}), off by {err} cells > {bound}")
     except IndexError as e:
         problems.append(f"{gt} grid {jmax0}x{imax0} ({dx:.2f} km) subgrid {(i0, i1, j0, j1)}: ll2xy raised IndexError ({e}) for positions in the valid region")
-    return {"ints": None, "oracle": "; ".join(problems[:3]) or None, "nontrivial": ("gridbig", gt, sub is None, round(math.log(dx)), i0 != j0),
-            "kind": f"gridbig-{gt}", "observed": {"grid": gt, "full": [jmax0, imax0], "subgrid": [i0, i1, j0, j1], "res_km": dx,
+    return {"ints": None, "oracle": "; ".join(problems[:3]) or None, "nontrivial": ("gridbig", gt, sub is None, round(math.log(dx)), i0 != j0, bool(desc.get("long"))),
+            "kind": f"gridbig-{gt}" + ("-long" if desc.get("long") else ""), "observed": {"grid": gt, "full": [jmax0, imax0], "subgrid": [i0, i1, j0, j1], "res_km": dx,
                                                  "roundtrip_bound_cells": bound, "worst_error_over_bound": worst}}
 
 
